@@ -33,7 +33,7 @@ ASSUMPTIONS = [
     'the value clause already fails']
 REQUIRED = ['kind:gauss', 'kind:lognorm', 'kind:gkde', 'kind:lnkde', 'kind:gmix', 'composed', 'mixed', 'plain',
             'nan', 'full', 'pad', 'drop', 'order2', 'order:noninvolution', 'refined', 'n_ids=1', 'n_times=1',
-            'nk=3', 'n_sim=2', 'nested', 'large_common_level:gmix']
+            'nk=3', 'n_sim=2', 'nested', 'large_common_level:gmix', 'other_unit:small']
 
 
 # --------------------------------------------------------------------------
@@ -124,6 +124,20 @@ def _spec(draw):
         level = draw(st.sampled_from([float(2 ** 20), float(2 ** 24), 1e8]))
         obs = [[[None if v is None else level + round(v * 64) / 64.0 for v in row] for row in ind] for ind in obs]
         sim = [[[level + round(v * 64) / 64.0 for v in row] for row in ind] for ind in sim]
+        for r in range(n_obs):
+            for j in range(n_times):
+                seen = set()
+                for s_ in range(n_sim):                     # (rounding must not make two simulated values equal)
+                    while sim[s_][r][j] in seen:
+                        sim[s_][r][j] += 1.0 / 64.0
+                    seen.add(sim[s_][r][j])
+
+    # ---- measurements reported in a small (or large) unit: concentrations of order 1e-7, variances of order 1e-14
+    unit = None
+    if level is None and gen.chance(draw, 0.1):
+        unit = draw(st.sampled_from([1e-7, 1e-9, 1e-5, 1e6]))
+        obs = [[[None if v is None else gen.sig6(v * unit) for v in row] for row in ind] for ind in obs]
+        sim = [[[gen.sig6(v * unit) for v in row] for row in ind] for ind in sim]
 
     # ---- transformations
     pad = sorted(draw(st.lists(st.integers(0, n_ids), min_size=0, max_size=3))) if gen.chance(draw, 0.6) else []
@@ -133,7 +147,7 @@ def _spec(draw):
     refine = [_cuts(draw, p['nt'], p['nt']) for p in parts]
     nest = gen.chance(draw, 0.3)
     return dict(nest=nest, parts=parts, composed=composed, obs=obs, sim=sim, drop=drop, pad=pad, perm=perm,
-                order1=order1, order2=order2, refine=refine, level=level)
+                order1=order1, order2=order2, refine=refine, level=level, unit=unit)
 
 
 def strategy(tier):
@@ -163,6 +177,10 @@ def classify(spec):
     if any(p.get('nk') == 3 for p in parts):
         labs.add('nk=3')
     labs.add('nan' if _has_nan(spec) else 'full')
+    if spec.get('unit'):
+        labs.add('other_unit')
+        if spec['unit'] < 1e-6:
+            labs.add('other_unit:small')
     if spec.get('level'):
         labs.add('large_common_level')
         if any(p['kind'] == 'gmix' for p in parts):
@@ -211,13 +229,20 @@ def _arr(nested):
     return np.array([[[np.nan if v is None else v for v in b] for b in a] for a in nested], dtype=float)
 
 
+# Conditioning of the case at hand: a common level L with a spread s carries the data with a relative resolution of
+# eps * L / s; results cannot be pinned down better than a modest multiple of that (0 for ordinary data).
+_COND = [0.0]
+
+
 def _value(case, f, sim, want, what, rtol=1e-9):
+    rtol = max(rtol, 100.0 * _COND[0])
     got = f.compute_log_likelihood(sim.copy())
     case.true(not np.ma.is_masked(got), '%s: masked value returned' % what, kind='masked')
     case.close(float(got), want, rtol=rtol, what=what)
 
 
 def _sens(case, f, sim, want_v, want_g, what, rtol_v=1e-9, rtol_g=1e-7):
+    rtol_v, rtol_g = max(rtol_v, 100.0 * _COND[0]), max(rtol_g, 100.0 * _COND[0])
     out = f.compute_sensitivities(sim.copy())
     case.equal(len(out), 2, '%s: length of the returned tuple' % what, kind='shape')
     sc, g = out
@@ -247,6 +272,18 @@ def check(case):
     sim = _arr(s['sim'])
     n_ids, n_obs, n_times = obs.shape
 
+    _COND[0] = 0.0
+    if s.get('level'):
+        spreads, j0 = [], 0
+        for p_ in parts:
+            nk = int(p_.get('nk') or 1)                        # (mixture filters estimate one kernel per block of individuals)
+            for j in range(j0, j0 + p_['nt']):
+                for r in range(n_obs):
+                    for blk in np.array_split(sim[:, r, j], nk):
+                        spreads.append(float(np.std(blk)))
+            j0 += p_['nt']
+        spread = min(spreads)
+        _COND[0] = float(s['level']) * 2.3e-16 / max(spread, 1e-300)
     with case.clause('construct'):
         f = rf.build(parts, obs, composed)
     if case.fails:
@@ -274,9 +311,9 @@ def check(case):
         # the score is compared with chi's own value (the reference value is the subject of clause 'value');
         # here the derivative is the subject
         if v0 is not None:
-            case.close(float(out[0]), v0, rtol=1e-12, what='score of compute_sensitivities vs compute_log_likelihood')
+            case.close(float(out[0]), v0, rtol=max(1e-12, 100.0 * _COND[0]), what='score of compute_sensitivities vs compute_log_likelihood')
         else:
-            case.close(float(out[0]), want, rtol=1e-9, what='score of compute_sensitivities')
+            case.close(float(out[0]), want, rtol=max(1e-9, 100.0 * _COND[0]), what='score of compute_sensitivities')
         _sens(case, f, sim, float(out[0]), want_g, 'reference', rtol_g=1e-7)
 
     # the measurement arrays handed to the constructors and the simulated measurements are the caller's: they keep
@@ -317,6 +354,17 @@ def check(case):
     if v0 is None and g0 is None:
         return
 
+    # ---- results handed out earlier keep their values when the filter is evaluated again -------------------
+    with case.clause('results_stable'):
+        r1 = f.compute_sensitivities(sim.copy())
+        keep = np.array(r1[1], dtype=float, copy=True)
+        sim_b = sim * 1.02 + 0.03
+        f.compute_sensitivities(sim_b.copy())
+        f.compute_log_likelihood(sim_b.copy())
+        case.true(np.array_equal(np.asarray(r1[1], dtype=float), keep, equal_nan=True),
+                  'the sensitivities returned by an earlier call changed after a later call with other simulated values '
+                  'of the same shape', kind='result_modified')
+
     # ---- one filter, simulated populations of different sizes ------------------------
     # (nothing computed for one set of simulated individuals may carry over to the next)
     with case.clause('other_sample_size'):
@@ -331,7 +379,7 @@ def check(case):
                 continue
             _value(case, f, sim2, want2, 'log-likelihood on the same filter with %s' % label)
             sc2, g2 = f.compute_sensitivities(sim2.copy())
-            case.close(float(sc2), want2, rtol=1e-9, what='score of compute_sensitivities on the same filter with %s' % label)
+            case.close(float(sc2), want2, rtol=max(1e-9, 100.0 * _COND[0]), what='score of compute_sensitivities on the same filter with %s' % label)
             case.equal(np.shape(g2), sim2.shape, 'sensitivities shape with %s' % label, kind='shape')
         _same_as_base(case, f, sim, v0, g0, 'the first simulated population again')
 
@@ -487,4 +535,4 @@ def check(case):
                 tot += float(fp.compute_log_likelihood(sim[:, :, j0:j0 + p['nt']].copy()))
                 j0 += p['nt']
             if v0 is not None:
-                case.close(v0, tot, rtol=1e-9, what='composed value vs sum of its parts')
+                case.close(v0, tot, rtol=max(1e-9, 100.0 * _COND[0]), what='composed value vs sum of its parts')
